@@ -21,6 +21,8 @@ elab "#audit_module " m:ident : command => do
       if modName == target then
         -- skip compiler-generated auxiliaries (equation lemmas, match splitters, …)
         if name.isInternalDetail then continue
+        -- equation lemmas of imported definitions are realised lazily in the importing module: not ours
+        if !(target.isPrefixOf name) then continue
         let axs ← liftCoreM (Lean.collectAxioms name)
         let axl := axs.toList.map toString
         logInfo m!"AUDIT-THEOREM {name} AXIOMS {axl}"
